@@ -23,6 +23,7 @@ for i in range(1, 21):
 # plus every function of the anchored modules (rules may look at helpers)
 out = {}
 for rel, m in sorted(repo.modules.items()):
+    out['%s#module_assigns' % rel] = sorted(m.assigns)
     for q, f in sorted(m.funcs.items()):
         if '<locals>' in q:
             continue
